@@ -115,6 +115,20 @@ func LoadProg(pkgPaths []string, contracts map[string]*PkgContracts) (*Prog, err
 
 func (p *Prog) allTypesPkgs() []*types.Package { return p.allTypes }
 
+// sortedContracts: contract files in a deterministic order (SMT scripts must not depend on map order).
+func (p *Prog) sortedContracts() []*PkgContracts {
+	var ks []string
+	for k := range p.contracts {
+		ks = append(ks, k)
+	}
+	sort.Strings(ks)
+	var out []*PkgContracts
+	for _, k := range ks {
+		out = append(out, p.contracts[k])
+	}
+	return out
+}
+
 func (p *Prog) typesPkg(path string) *types.Package { return p.typesBy[path] }
 
 // findFunc resolves a contract name (F, (T).M, (*T).M, F$1) in an SSA package.
@@ -162,7 +176,17 @@ func (p *Prog) findContract(c *ssa.CallCommon, callee *ssa.Function, fullName st
 				}
 			}
 		}
-		for _, pc := range p.contracts {
+		// method declared in an embedded interface
+		if sig, ok := c.Method.Type().(*types.Signature); ok && sig.Recv() != nil {
+			if named, ok := sig.Recv().Type().(*types.Named); ok && named.Obj().Pkg() != nil {
+				if pc := p.contracts[named.Obj().Pkg().Path()]; pc != nil {
+					if fc := pc.Funcs[named.Obj().Name()+"."+c.Method.Name()]; fc != nil && fc.Kind == "iface" {
+						return fc, pc
+					}
+				}
+			}
+		}
+		for _, pc := range p.sortedContracts() {
 			if fc := pc.Trusted[fullName]; fc != nil {
 				return fc, pc
 			}
@@ -186,7 +210,7 @@ func (p *Prog) findContract(c *ssa.CallCommon, callee *ssa.Function, fullName st
 			}
 		}
 	}
-	for _, pc := range p.contracts {
+	for _, pc := range p.sortedContracts() {
 		if fc := pc.Trusted[fullName]; fc != nil {
 			return fc, pc
 		}
